@@ -795,6 +795,10 @@ impl Stub for RetryBackend {
         self.calls.borrow_mut().push((Arc::as_ptr(&request), (*request).clone()));
         match self.results.get(n).cloned().unwrap_or(Ok(900 + n as u64)) {
             Ok(v) => Ok(v),
+            // every kind of RpcError a wrapped stub can return
+            Err(d) if d.starts_with("SHUTDOWN") => Err(RpcError::Shutdown),
+            Err(d) if d.starts_with("DEADLINE") => Err(RpcError::DeadlineExceeded),
+            Err(d) if d.starts_with("SEND") => Err(RpcError::Send(d.into())),
             Err(d) => Err(RpcError::Server(ServerError::new(std::io::ErrorKind::Other, d))),
         }
     }
@@ -813,6 +817,9 @@ pub fn c20_retry(policy: &[bool], results: &[Result<u64, String>], desc: serde_j
         let rr = match r {
             Ok(v) => Ok(*v),
             Err(RpcError::Server(e)) => Err(e.detail.clone()),
+            Err(RpcError::Shutdown) => Err("SHUTDOWN".to_string()),
+            Err(RpcError::DeadlineExceeded) => Err("DEADLINE".to_string()),
+            Err(RpcError::Send(_)) => Err("SEND".to_string()),
             Err(e) => Err(e.to_string()),
         };
         sa.borrow_mut().push((attempt, rr));
@@ -825,6 +832,9 @@ pub fn c20_retry(policy: &[bool], results: &[Result<u64, String>], desc: serde_j
         Ok(Some(r)) => match r {
             Ok(v) => Ok(v),
             Err(RpcError::Server(e)) => Err(e.detail),
+            Err(RpcError::Shutdown) => Err("SHUTDOWN".to_string()),
+            Err(RpcError::DeadlineExceeded) => Err("DEADLINE".to_string()),
+            Err(RpcError::Send(_)) => Err("SEND".to_string()),
             Err(e) => Err(e.to_string()),
         },
         Ok(None) => {
